@@ -7,9 +7,11 @@
 (***************************************************************************)
 EXTENDS Integers, Sequences, FiniteSets, TLC, Json
 
-CONSTANTS Names, TypeSets, NsSets, MaxRoutes, AddrKinds, Emit
-VARIABLES table, pkt
-vars == <<table, pkt>>
+CONSTANTS Names, TypeSets, NsSets, MaxRoutes, AddrKinds, Emit,
+          HPackets, MaxDisp      \* history mode (HSpec): the packets dispatched and how many dispatches per history
+VARIABLES table, pkt,
+          hist                   \* history mode: the dispatches so far, each with the number of routes registered before it
+vars == <<table, pkt, hist>>
 
 NoM == "-"          \* no name matcher
 NoS == {"*"}        \* no type / namespace matcher (sets must stay comparable with sets)
@@ -45,9 +47,29 @@ Result(t, p) == LET m == FirstMatch(t, p) IN
 \* the documentation is silent on matching the namespace of an unregistered payload
 Asserted(t, p) == ~(p.pns = "U" /\ \E i \in 1..Len(t) : t[i].ns # NoS)
 
-Init == table \in Tables /\ pkt \in Packets
+Init == table \in Tables /\ pkt \in Packets /\ hist = <<>>
 Next == UNCHANGED vars
 Spec == Init /\ [][Next]_vars
+
+(***************************************************************************)
+(* History mode: the route table is not fixed before the first packet.     *)
+(* Routes are registered (appended) while packets are being dispatched: a  *)
+(* dispatch sees exactly the routes registered before it.                  *)
+(***************************************************************************)
+HInit == table = <<>> /\ pkt = (CHOOSE p \in HPackets : TRUE) /\ hist = <<>>
+HRegister(r) == /\ Len(table) < MaxRoutes /\ table' = Append(table, r) /\ UNCHANGED <<pkt, hist>>
+HDispatch(p) == /\ Len(hist) < MaxDisp /\ pkt' = p
+                /\ hist' = Append(hist, [after |-> Len(table), pkt |-> p, res |-> Result(table, p)])
+                /\ UNCHANGED table
+HNext == (\E r \in RouteKinds : HRegister(r)) \/ (\E p \in HPackets : HDispatch(p))
+HSpec == HInit /\ [][HNext]_vars
+\* registration only appends: every earlier dispatch stays explained by the prefix of the table it saw
+C06_RegistrationAppends == \A i \in 1..Len(hist) : hist[i].res = Result(SubSeq(table, 1, hist[i].after), hist[i].pkt)
+\* a route registered after a packet was dispatched is used by the next packet it matches
+C06_LateRouteIsUsed == \A i \in 1..Len(hist) : \A k \in 1..hist[i].after :
+      (Matches(table[k], hist[i].pkt) /\ \A j \in 1..(k - 1) : ~Matches(table[j], hist[i].pkt)) => hist[i].res.invoked = <<k>>
+HEmitInv == IF Emit /\ Len(hist) = MaxDisp /\ Len(table) = MaxRoutes
+            THEN PrintT(<<"B", ToJson([table |-> table, disp |-> [i \in 1..Len(hist) |-> [after |-> hist[i].after, pkt |-> hist[i].pkt]]])>>) ELSE TRUE
 
 \* ---- model-level theorems (C06)
 C06_AtMostOneHandler == Len(Result(table, pkt).invoked) <= 1
